@@ -485,6 +485,7 @@ def _pass_inline_setters(fn, cls: Optional[ast.ClassDef]) -> bool:
 def normalize_tree(tree: ast.Module, table: Optional[Dict[str, List[str]]] = None) -> ast.Module:
     tree = copy.deepcopy(tree)
     _pass_module_constants(tree)
+    _pass_merge_isinstance(tree)
     _pass_keywords(tree, table if table is not None else _param_table([tree]))
 
     def visit(body, cls, outer):
@@ -496,6 +497,7 @@ def normalize_tree(tree: ast.Module, table: Optional[Dict[str, List[str]]] = Non
                     ch = ch or _pass_inline_helpers(st, ctx)
                     ch = ch or _pass_eta_expand(st)
                     ch = ch or _pass_len_truth(st)
+                    ch = ch or (_pass_ifexp_assign(st) if _wants_ifexp_split(st) else False)
                     ch = ch or _pass_unpack_paths(st)
                     ch = ch or _pass_split_ranges(st)
                     ch |= _pass_store_then_read(st)
@@ -1409,3 +1411,50 @@ def _pass_module_constants(tree) -> bool:
             fn.body[i] = T().visit(st)
         fn.args.defaults = [T().visit(d) for d in fn.args.defaults]
     return changed
+
+
+def _pass_merge_isinstance(tree) -> bool:
+    """N14: `isinstance(x, A) or isinstance(x, B)`  ->  `isinstance(x, (A, B))` (same first argument, adjacent operands)."""
+    changed = False
+    for n in ast.walk(tree):
+        if isinstance(n, ast.BoolOp) and isinstance(n.op, ast.Or):
+            vals = []
+            for v in n.values:
+                def isi(e):
+                    return isinstance(e, ast.Call) and isinstance(e.func, ast.Name) and e.func.id == "isinstance" and len(e.args) == 2 and not e.keywords and _path_text(e.args[0]) is not None
+                if vals and isi(v) and isi(vals[-1]) and _path_text(v.args[0]) == _path_text(vals[-1].args[0]):
+                    prev = vals[-1]
+                    a = list(prev.args[1].elts) if isinstance(prev.args[1], ast.Tuple) else [prev.args[1]]
+                    b = list(v.args[1].elts) if isinstance(v.args[1], ast.Tuple) else [v.args[1]]
+                    prev.args[1] = ast.copy_location(ast.Tuple(elts=a + b, ctx=ast.Load()), prev.args[1])
+                    changed = True
+                else:
+                    vals.append(v)
+            if len(vals) != len(n.values):
+                n.values = vals if len(vals) > 1 else vals + [ast.copy_location(ast.Constant(value=False), n)]
+    return changed
+
+
+def _pass_ifexp_assign(fn) -> bool:
+    """N15: `T = A if c else B` (statement level)  ->  `if c: T = A  else: T = B`."""
+    idx = _Index(fn)
+    for st in list(idx.stmts):
+        if isinstance(st, ast.Assign) and isinstance(st.value, ast.IfExp) and len(st.targets) == 1 and isinstance(st.targets[0], (ast.Name, ast.Attribute)) \
+                and isinstance(st.value.body, ast.Attribute) and isinstance(st.value.orelse, ast.Attribute):
+            b, i = idx.block_and_index(st)
+            if b is None:
+                continue
+            v = st.value
+            new = ast.If(test=v.test, body=[ast.Assign(targets=[copy.deepcopy(st.targets[0])], value=v.body)], orelse=[ast.Assign(targets=[copy.deepcopy(st.targets[0])], value=v.orelse)])
+            b[i:i + 1] = _loc([new], st)
+            return True
+    return False
+
+
+def _wants_ifexp_split(fn) -> bool:
+    """Only split conditional assignments that choose between callables/attributes of self (scheduler selection and the
+    like); value-level conditionals (`x = a if c else b` feeding an argument) are better left as expressions."""
+    for st in _own_nodes(fn):
+        if isinstance(st, ast.Assign) and isinstance(st.value, ast.IfExp) and isinstance(st.value.body, ast.Attribute) and isinstance(st.value.orelse, ast.Attribute):
+            return True
+    return False
